@@ -4,6 +4,7 @@ Every model states the semantics it assumes.  Encoders are modelled at byte
 level through uninterpreted big-endian functions be(n, v) / unbe(seq) with the
 axioms instantiated at each use (length, round trip, range).
 """
+import re
 import z3
 from .values import *
 from .engine import Raised, zt, wrap_const, Out
@@ -72,13 +73,8 @@ def enc_string(ex, s, v, node):
     if not isinstance(v, VBytes):
         raise Unsupported(f'String({v!r})')
     n = z3.Length(v.z)
-    res = []
-    for s2, ok in ex.branch(s, n < 2 ** 32, node):
-        if ok:
-            res.append((s2, VBytes(z3.Concat(be_term(s2, 4, n), v.z))))
-        else:
-            res.append(_raise(s2, 'OverflowError'))
-    return res
+    s.assume(n < 2 ** 32)      # assumed: no bytes object has 2^32 or more elements
+    return [(s, VBytes(z3.Concat(be_term(s, 4, n), v.z)))]
 
 
 def call_builtin(ex, s, key, recv, args, kwargs, node):
@@ -124,6 +120,8 @@ def b_len(ex, s, args, kw, node):
         return out
     v = ex.deref(s, args[0])
     if isinstance(v, (VBytes, VStr, VSeq)):
+        # assumed: no bytes / str / list object has 2^32 or more elements
+        s.assume(z3.Length(v.z) < 2 ** 32)
         return [(s, VInt(z3.Length(v.z)))]
     if isinstance(v, (VTuple, VList)):
         return [(s, VInt(len(v.items)))]
@@ -485,6 +483,14 @@ def st_encode(ex, s, recv, r, args, kw, node):
     return out
 
 
+def join_fn(rsort, seqsort):
+    """sep.join(seq) over a symbolic sequence: uninterpreted, named after the element sort"""
+    if seqsort == z3.SeqSort(BytesS):
+        return z3.Function('join_b', rsort, seqsort, rsort)
+    nm = re.sub(r'\W+', '_', str(seqsort))
+    return z3.Function('join_' + nm, rsort, seqsort, rsort)
+
+
 def by_join(ex, s, recv, r, args, kw, node):
     it = ex.deref(s, args[0])
     if isinstance(it, (VTuple, VList)):
@@ -496,9 +502,10 @@ def by_join(ex, s, recv, r, args, kw, node):
         sort = r.z.sort()
         z = z3.Empty(sort) if not zs else (zs[0] if len(zs) == 1 else z3.Concat(*zs))
         return [(s, VBytes(z) if isinstance(r, VBytes) else VStr(z))]
+    if isinstance(it, tuple) and it[0] == 'star':
+        it = it[1]
     if isinstance(it, VSeq):
-        f = z3.Function('join_' + ('b' if isinstance(r, VBytes) else 's'), r.z.sort(), it.z.sort(), r.z.sort())
-        z = f(r.z, it.z)
+        z = join_fn(r.z.sort(), it.z.sort())(r.z, it.z)
         return [(s, VBytes(z) if isinstance(r, VBytes) else VStr(z))]
     if isinstance(it, tuple) and it[0] == 'star':
         it = it[1]
